@@ -495,7 +495,7 @@ def parse_text_summary(text):
     import re
 
     last = text.rsplit("Tests running...\n", 1)[-1]
-    m = re.search(r"^Ran (\d+) (tests?) in [\d.]+s$", last, re.M)
+    m = re.search(r"^Ran (\d+) (tests?) in -?[\d.]+s$", last, re.M)
     out = {"ran": None, "word": None, "verdict": None, "failures": None}
     if m:
         out["ran"] = int(m.group(1))
